@@ -321,7 +321,7 @@ class Result:
         failed = [o for o in self.obligations if not o[1]]
         reported_sites = set()
         for v in self.violations:
-            k = next((f for f in self.known if f.get('site') == v['site']), None)
+            k = next((f for f in self.known if f.get('site') == v['site'] or v['site'] in f.get('sites', [])), None)
             if k is not None and v['found']:
                 if k['id'] not in [x['id'] for x in self.known_hit]:
                     self.known_hit.append(k)
